@@ -904,7 +904,7 @@ fn lean_stored() -> [WEnt; 1] {
 }
 
 /// C08 lean: one stored peer; the request uses either the stored peer id or a fresh one.
-pub fn c08_announce_lean() {
+pub fn c08_announce_lean(same_pid: bool) {
     let ents = lean_stored();
     let mut m = mk_map(H0, &ents);
     let now: u32 = kani::any();
@@ -914,7 +914,7 @@ pub fn c08_announce_lean() {
     let config = mk_config(2, 4, age, 60, AccessListMode::Off);
     let mut rng = any_rng();
     let mut out: Vec<(OutMessageMeta, OutMessage)> = Vec::with_capacity(2);
-    let same_pid: bool = kani::any();
+    // case split at harness level (two solver queries instead of one twice as large)
     let pid = if same_pid { P_STORED } else { P_OTHER };
     let req = bare_request(H0, pid);
     let stopped = req.event == Some(AnnounceEvent::Stopped);
@@ -971,10 +971,10 @@ pub fn c08_announce_lean() {
             _ => assert!(false, "announce answered with another message kind"),
         }
     }
-    kani::cover!(foreign, "foreign peer id");
-    kani::cover!(same_pid && !foreign && !stopped, "owner re-announces");
-    kani::cover!(same_pid && !foreign && stopped, "owner stops");
-    kani::cover!(!same_pid && !stopped, "new peer");
+    kani::cover!(foreign || !same_pid, "foreign peer id");
+    kani::cover!((same_pid && !foreign && !stopped) || !same_pid, "owner re-announces");
+    kani::cover!((same_pid && !foreign && stopped) || !same_pid, "owner stops");
+    kani::cover!((!same_pid && !stopped) || same_pid, "new peer");
     std::mem::forget(out);
     std::mem::forget(m);
     std::mem::forget(config);
